@@ -224,7 +224,7 @@ theorem encodeImports_no_panic {g : GraphVal} (wf : WF g) (cl : Closed g) {impor
         by_cases hki : (agg'.fix e0.2).kind = .instance
         · exact List.mem_append.mpr (Or.inl (List.mem_filter.mpr ⟨hm, by simpa using hki⟩))
         · exact List.mem_append.mpr (Or.inr (List.mem_filter.mpr ⟨hm, by simpa using hki⟩))
-      have hAll := importAll_sinv (g := g) (A := fun _ _ => True) (B := fun _ => True) l (st := {}) (enc := []) []
+      have hAll := importAll_sinv (g := g) (A := fun _ _ => True) (B := fun _ => True) (C := fun _ _ => True) l (st := {}) (enc := []) []
         SInv.init (by intro nm k idx hq; simp [amGet] at hq) (fun _ _ => ⟨trivial, fun _ _ _ => trivial⟩)
       generalize hgen : importAll id l {} [] = res at hAll
       obtain ⟨stA, enc⟩ := res
